@@ -99,6 +99,18 @@ func (global *Ast) checkSrcPaths(stagecodePaths []string) error {
 }
 
 func (src *SourceFile) checkIncludes(fullPath string, inc *SourceLoc) error {
+	return src.checkIncludesFrom(fullPath, inc, make(map[*SourceFile]struct{}))
+}
+
+// checkIncludesFrom visits every file from which this one is (transitively)
+// included once.  Once a cycle has been found (and reported) the graph of
+// includers is no longer acyclic, so the walk must not follow it blindly.
+func (src *SourceFile) checkIncludesFrom(fullPath string, inc *SourceLoc,
+	seen map[*SourceFile]struct{}) error {
+	if _, ok := seen[src]; ok {
+		return nil
+	}
+	seen[src] = struct{}{}
 	var errs ErrorList
 	if fullPath == src.FullPath {
 		errs = append(errs, &wrapError{
@@ -107,7 +119,7 @@ func (src *SourceFile) checkIncludes(fullPath string, inc *SourceLoc) error {
 		})
 	} else {
 		for _, parent := range src.IncludedFrom {
-			if err := parent.File.checkIncludes(fullPath, inc); err != nil {
+			if err := parent.File.checkIncludesFrom(fullPath, inc, seen); err != nil {
 				errs = append(errs, err)
 			}
 		}
